@@ -133,6 +133,7 @@ FINDINGS += [
     # ---- directly constructed IR: shapes no source grammar term produces (named scalar / collection
     # aliases, nullable objects, by-value recursion, lower-case object names, unions under unions) ----
     IR("go/by-value-recursive-struct", "a required non-nullable reference from a struct to itself (or a by-value cycle) is printed as `type D struct{A D}`: Go rejects it (`invalid recursive type`); the run should refuse the schema", "go", r"invalid-recursive-type:in-types"),
+    IR("go/import-cycle-between-mutually-referring-packages", "two schemas that refer to each other become two Go packages that import each other (`import cycle not allowed`)", "go", r"import-cycle[^ ]*"),
     IR("go/unused-imports", "the unused-import mechanisms of the template-rendered methods (strconv with a map of non-scalars, fmt with a union and no strict unmarshaller, errors/time with skip_runtime) on IR shapes", "go", r"unused-import:(strconv|fmt|errors|time):in-types"),
     IR("go/unknown-for-kind-left-by-the-pass-chain", "an enum or disjunction left at a printed type position by the Go pass chain (C06: union under a union branch, in a map index) is printed as `unknown`", "go", r"placeholder:unknown|undefined:unknown:in-types"),
     IR("go/equals-on-slice-typed-alias", "Equals compares a field whose type is a named bytes / array alias with `!=`", "go", r"invalid-operation:comparison-with-non-comparable:in-types"),
